@@ -45,6 +45,8 @@ CORPUS = [  # (formula tokens, natoms) always run on every site: F5 witnesses an
     ("X X a0", 2), ("G > a0 X a1", 2), ("G F a0", 2), ("F G a0", 2), ("U G a0 a1", 2), ("U a0 G a1", 2),
     ("U a0 U a1 a0", 2), ("U U a0 a1 a0", 2), ("F U a0 a1", 2), ("X U a0 a1", 2), ("> F a0 G a1", 2) ,
     ("| & a0 G a1 F ! a0", 2), ("! U a0 a1", 2), ("& U a0 a1 G ! a1", 2), ("a0", 2), ("! a0", 2), ("> a0 a1", 2),
+    # n-ary and/or (the compiler builds one And/Or node with three operands), prefix operators as last operands
+    ("& & a0 a1 X a0", 2), ("| | a0 X a1 F a0", 2), ("& & G a0 a1 F a1", 2), ("| | ! a0 a1 G a1", 2),
 ]
 
 
@@ -134,7 +136,7 @@ def main():
             d2 = rng.sample(d2, 180)
         for j, f in enumerate(d2):
             plan.append((f, 2, SITE_ORDER[j % 5], STYLES[(j // 5) % 3], tables[2], None))
-        nd3 = 50 if quick else 1500
+        nd3 = 50 if quick else 1000
         seen3 = set()
         while len(seen3) < nd3:
             f = F.random_formula(rng, 3, 2)
@@ -144,7 +146,7 @@ def main():
             plan.append((f, 2, SITE_ORDER[j % 5], STYLES[(j // 5) % 3], tables[2], None))
         if not quick:
             t5 = [t for t in all_tables(2, 5) if len(t) == 5]
-            for j, f in enumerate(d2[::14]):
+            for j, f in enumerate(d2[::20]):
                 plan.append((f, 2, SITE_ORDER[j % 5], STYLES[j % 3], t5, None))
 
     # ---------------- processed in rounds of bounded size (memory), each: implementation || model, then compare
